@@ -10,7 +10,7 @@ CLAIMS = {
        "on accepted text), exact characterisation of rejection, size query = bytes written, no write beyond ol and no "
        "read beyond il for every input. Unconditional, unbounded. The model is tied to the code on every run by a "
        "regenerated alphabet table (theorems re-checked against it) and an exhaustive/randomised differential run "
-       "(≈0.8M operations quick) of the real functions under ASan/UBSan with canaries, plus a direct RFC 4648 oracle.",
+       "(≈0.8M operations quick) of the real functions under ASan/UBSan with canaries, plus a direct RFC 4648 oracle. Streaming forms against buffer forms: input lengths 0..40 and block boundaries, every sink capacity 0..required+1, several chunkings; invalid text of every class through the streamed decoder.",
   note="Trusted: Lean kernel; axioms propext/Classical.choice/Quot.sound; the hand-written model Jose/B64.lean is "
        "tied to lib/b64.c only by the correspondence run (differential testing); jansson's parser/dumper are "
        "modelled (Jose/JsonParse.lean) and compared, not verified; streaming forms are covered under C07.",
@@ -25,7 +25,7 @@ CLAIMS = {
        "again; a refusal by the sink under any stack of codec/transformer stages makes the run fail (feed or done). "
        "Chunking independence for arbitrary chain shapes and for the OpenSSL/zlib-backed stages is validated, not "
        "proved: exhaustive compositions of lengths <=8 (quick) over 14 chain shapes, random trees of depth 3, every "
-       "probe failure position, against the real objects under ASan/UBSan and a denotational Python reference.",
+       "probe failure position, against the real objects under ASan/UBSan and a denotational Python reference. The content-decryption stream (GCM and CBC-HMAC, with and without inflate) is a chain stage on both sides (jwedec): plaintext lengths around the block size incl. a pure-padding final block, in front of buffering stages, bounded sinks, multiplexers and failing sinks.",
   note="Trusted: Lean kernel, standard axioms; model tied to code by differential testing only; transformer stages "
        "(hash/inflate/deflate/cipher) are modelled at verdict level (what they emit in total), their stream laws are "
        "validated on OpenSSL/zlib, not proved; general-shape chunking theorem not yet proved (stated in DESIGN §6 C07).",
@@ -71,7 +71,7 @@ CLAIMS = {
        "a function of the concatenated data). Differential run: jose-signed and Lean-signed tokens of all 13 "
        "algorithms, ~8k mutations (every signature character, payload/protected positions, alg games, key edits, key "
        "set shapes x any/all, streaming), against an independent Lean implementation of HMAC/ECDSA/RSASSA; every "
-       "acceptance by jose is re-derived from raw primitive checks by a specification oracle.",
+       "acceptance by jose is re-derived from raw primitive checks by a specification oracle. Added after the seeded campaign: non-text protected headers (object, array, scalar) on tokens signed over an empty protected header, flattened and general.",
   note="Trusted: Lean kernel, standard axioms; primitives are parameters (their cryptographic strength is not claimed); "
        "model tied to lib/jws.c + lib/openssl/{hmac,ecdsa,rsassa,jwk}.c by differential testing against the "
        "independent Lean primitives (Jose/Crypto); nested key lists are not modelled; timing of comparisons is out of scope.",
@@ -87,37 +87,51 @@ CLAIMS = {
        "dump (HMAC needs no law; base64 round trip through JSON strings is proved). Differential/interop run both ways "
        "with the independent Lean implementation: 680 sign ops x 2 sides, every token verified by both sides under key "
        "and public half, HMAC and RS* values bit-identical, general form (2nd/3rd signature), multi-key calls, streamed "
-       "payloads, RFC 7515/7520 vectors.",
+       "payloads, RFC 7515/7520 vectors. Also through the command-line tool with payloads covering every byte value, NUL, 0xFF, dots, newlines (file and stdin, JSON and compact), each verified by the library, the model and `jws ver -I`.",
   note="Trusted: Lean kernel, standard axioms; primitive laws are hypotheses (validated against OpenSSL by interop); "
        "the independent implementation shares no code with jose or OpenSSL; randomized signatures (ES*, PS*) are "
        "compared by cross-verification, not bit for bit.",
   technique="Lean 4 theorem proving + bidirectional differential interop with an independent Lean implementation",
   design="§6 C03"),
  "C15": dict(
-  text="Machine-checked proof on the model of jose_jws_hdr / jose_jwe_hdr: for every parameter name and every presence "
-       "pattern the merged value is protected, else shared unprotected, else per-recipient (JWS: protected, else "
-       "header), identical for object and encoded protected headers; unusable headers make the merge fail. For JWS "
-       "producing calls the algorithm applied is the one the result's merged header names and it is recorded in the "
-       "protected header (C03.findAlgSig_spec). Differential run over all presence patterns x forms x malformed "
-       "headers with a direct oracle; producing calls are re-verified by the independent implementation using only the "
-       "recorded header (C03/C04 runs).",
-  note="Trusted: Lean kernel, standard axioms; the JWE producing half (enc/alg recording) is covered by the C04 "
-       "correspondence and stated for the JWE model; inference tables are compared, not proved.",
-  technique="Lean 4 theorem proving + differential correspondence",
-  design="§6 C15"),
+  text="Machine-checked proof, 21 theorems. Merge: on the model of jose_jws_hdr / jose_jwe_hdr, for every parameter name and "
+       "every presence pattern the merged value is protected, else shared unprotected, else per-recipient (JWS: protected, "
+       "else header), identical for object and encoded protected headers; unusable headers make the merge fail. Applied = "
+       "recorded: whatever jose_jws_sig appends names, in its merged header, exactly the algorithm whose signing leaf "
+       "produced the stored signature, and a caller-supplied algorithm is kept or the call fails (jws_applied_is_recorded, "
+       "jws_supplied_alg_kept); when jose_jwe_enc_cek_io goes ahead with content encryption a, the merged header of the "
+       "object it leaves names a — from protected, else unprotected, else the CEK's alg, else suggested and then written "
+       "(jwe_enc_applied_is_recorded); ECDSA names bind the curve on both sides (ES256=P-256 ... after fix 8c50062); zip "
+       "is honoured from the protected header only, for encryption and decryption. Inference: the model's four suggestion "
+       "functions (sign.sug, wrap.alg, encr.sug, wrap.enc) equal the library's hooks on a grid of 140 probe keys x 21 "
+       "algorithms REGENERATED FROM THE BUILT CODE ON EVERY RUN and re-proved by kernel evaluation (sug_*_is_code). "
+       "Differential run: all presence patterns x forms x malformed headers; producing calls with conflicting enc/alg/zip "
+       "across protected/shared/per-recipient headers and the key, inference for every key type, size, curve and password "
+       "length class; every produced object is checked for the shape (iv, tag, ciphertext, signature length) its own merged "
+       "header implies and is processed by the independent implementation using only what it records.",
+  note="Trusted: Lean kernel, standard axioms (decide +kernel for the grid: no extra axiom); the JSON layer's load(dump p)=p law "
+       "is a hypothesis of the two applied=recorded theorems (validated by b64.enc_dump/dec_load operations); the suggestion "
+       "grid is finite (thresholds, every name list, junk) — between grid points the tie is the differential run; the "
+       "key-management half of JWE producing (alg recorded per recipient) is covered by correspondence, not by a theorem.",
+  technique="Lean 4 theorem proving + tables regenerated from the built code and re-proved by kernel evaluation + differential correspondence",
+  design="§A, §6 C15"),
  "C16": dict(
-  text="Machine-checked proof on the model of add_entity/encode_protected for unbounded histories: from any legal start "
-       "(empty, flattened, general, empty list) any sequence of additions succeeds and leaves exactly one legal form "
-       "holding the starting entries followed by the added ones in order, each showing the listed members it was added "
-       "with; flattened->general moves the existing entry unchanged; never both forms; encoded protected headers are "
-       "never altered, encoding is idempotent. Differential run: all histories of length <=4 over 11 entry kinds from 15 "
-       "start shapes for both member sets (53k), with a direct layout oracle; real sign histories with verification of "
-       "every earlier signature after each step are part of the C03 run.",
-  note="Trusted: Lean kernel, standard axioms; model tied to lib/openssl/misc.c by differential testing; 'earlier "
-       "entries stay valid' follows from the layout theorem plus C03's round trip (signing input depends only on the "
-       "entry's own protected text and the shared payload).",
-  technique="Lean 4 theorem proving (invariant over histories) + exhaustive short-history differential",
-  design="§6 C16"),
+  text="Machine-checked proof, 18 theorems, on the model of add_entity/encode_protected for unbounded histories: from any "
+       "legal start (empty, flattened, general, empty list) any sequence of additions succeeds and leaves exactly one legal "
+       "form holding the starting entries followed by the added ones in order, each showing the listed members it was added "
+       "with; flattened->general moves the existing entry unchanged; never both forms; every non-listed top-level member is "
+       "untouched (frame); encoded protected headers are never altered, encoding is idempotent. Earlier entries remain "
+       "valid/usable: the verification verdict of a signature object is a function of its three listed members "
+       "(verdict_of_view), unwrapping a recipient is a function of its two listed members and the JWE's protected/shared "
+       "headers (recipient_usable_of_view), hence after ANY history the entry at every position verifies / unwraps, for every "
+       "key and payload, exactly as the object originally there (earlier_signatures_survive, earlier_recipients_survive). "
+       "Differential run: all histories of length <=4 over 11 entry kinds from 15 start shapes for both member sets (53k) "
+       "with a direct layout oracle; real signing and wrapping histories with every template form at every position, "
+       "verification of every earlier signature and decryption by every earlier recipient after each step, byte-for-byte "
+       "check of encoded protected headers, recipients added after content encryption, multi-key calls with one shared template.",
+  note="Trusted: Lean kernel, standard axioms; model tied to lib/openssl/misc.c, lib/jws.c, lib/jwe.c by differential testing.",
+  technique="Lean 4 theorem proving (invariant over histories, congruence of verification/unwrapping in the listed members) + exhaustive short-history differential + real histories",
+  design="§A, §6 C16"),
  "C02": dict(
   text="Machine-checked proof on the model of jose_jwe_dec_cek(_io)/jose_jwe_dec_jwk and the encr.dec / wrap.unw hooks, "
        "for every instance of the primitives: one-shot decryption succeeds only if the ciphertext text is canonical, the "
@@ -144,7 +158,7 @@ CLAIMS = {
        "inflate∘deflate law ⇒ plaintext. Differential/interop run with a RAND_bytes tape: all 21 key-management x 6 "
        "content algorithms x zip x aad x header placement bit-for-bit where the tape determines the output, every "
        "token cross-decrypted by both implementations and refused for foreign keys, inferred algorithms, 1..3 "
-       "recipients, re-wrap, streamed enc/dec under random chunkings, RFC 7520 §5 vectors.",
+       "recipients, re-wrap, streamed enc/dec under random chunkings, RFC 7520 §5 vectors. Also: PBES2 p2c and ECDH-ES apu/apv placed in each of the three headers, and single calls for several keys (no template, empty, one template object with its own header, one per key) for every family that writes per-recipient parameters; each token decrypted by every key on both sides.",
   note="Trusted: Lean kernel, standard axioms; primitive laws are hypotheses validated by interop; key wrapping "
        "round trip (wrp/unw) is covered by the correspondence and per-family theorems in C02, not by one general theorem; "
        "known finding recorded: an RSA1_5 recipient shadows a later recipient of another RSA key.",
@@ -160,7 +174,7 @@ CLAIMS = {
        "key_ops subsets x 6 use values x 10 operations x 2 modes; every ordered pair (key alg, header alg) over all "
        "registered names of the kind plus names sorting before/between/after, through jws sig/ver, jwe dec_jwk/"
        "enc_cek/dec_cek, jwk exc, with keys that would otherwise succeed; 12 metadata cases x 10 entry points, against "
-       "a direct oracle of the statement.",
+       "a direct oracle of the statement. Also every ordered pair (key's declared content encryption, header enc) through the whole-call entry point with alg=dir, including pairs of equal key size.",
   note="Trusted: Lean kernel, standard axioms (grind used for one boolean table fact); a non-string 'use' member is "
        "treated as malformed (refusal accepted).",
   technique="Lean 4 theorem proving (decision logic stated outright) + exhaustive differential on the finite part",
@@ -187,7 +201,7 @@ CLAIMS = {
        "types; -t's clamping spec incl. negative counts and non-array TOP; in-place options keep the stack, pushes add "
        "exactly one value, -U removes exactly TOP. Three-way differential run (80k programs quick): the real CLI "
        "(forked in-process under ASan/UBSan, files and stdin included) vs the Lean model vs an executable transcription "
-       "of the manual (tools/fmtspec.py) used as the direct oracle.",
+       "of the manual (tools/fmtspec.py) used as the direct oracle. Also copy/query independence programs (nested values copied, walked into, mutated, whole stack printed) and values whose members are given in non-sorted order at several depths.",
   note="Trusted: Lean kernel, standard axioms; getopt_long argument parsing is mirrored in Jose.Fmt.parseArgv and "
        "compared, not verified; jansson load/dump modelled (JsonParse/dump) and compared; status values above 255 "
        "wrap in the OS exit status (status compared modulo 256, stated in DESIGN). F13 (-t on a non-array TOP / "
@@ -245,7 +259,7 @@ CLAIMS = {
        "key-wrapping keys have exactly the algorithm's length (lengths are table facts), never truncated or padded. "
        "Grids on the implementation and the model with an independent pure-Python oracle (hmac/hashlib, big-integer RSA, "
        "curve arithmetic): every HMAC key length, pre-generated 512..2040-bit RSA keys with genuine signatures, ~25 "
-       "invalid-EC-key constructions per curve through sign/verify/exchange/ECDH-ES, every content- and wrapping-key length.",
+       "invalid-EC-key constructions per curve through sign/verify/exchange/ECDH-ES, every content- and wrapping-key length. Small RSA moduli written with leading zero octets (encoding length >= 256 bytes) are refused for signing and verifying.",
   note="Trusted: Lean kernel, standard axioms; that EC_KEY_check_key implements the validity predicate is cross-checked "
        "numerically by tools/ecmath.py and Jose/Crypto/Ec.lean, not proved. Not counted as invalid (stated assumptions): "
        "extra leading zero bytes; coordinates >= p whose residue is on the curve; an ES256 header used with a P-384 key "
@@ -265,7 +279,7 @@ CLAIMS = {
        "key_ops is; the content IV is the generator's next bytes. Grid (3.9k templates; RSA generations capped) on the "
        "implementation and the model with an independent arithmetic oracle on every accepted key (sizes, n=pq, "
        "de=1 mod lcm, CRT, d*G=Q, widths), each key used with its algorithm; freshness: pairwise distinctness of k, d, n, p, "
-       "CEK, IV, p2s, epk, GCMKW iv over repeated calls without a tape.",
+       "CEK, IV, p2s, epk, GCMKW iv over repeated calls without a tape. Random-generator failure injected at every request of every consumer (oct keys, CEKs, IVs, PBES2 salt, GCMKW iv): the operation fails, nothing is handed out.",
   note="Trusted: Lean kernel, standard axioms; RSA/EC generation itself is OpenSSL's (primitive); the executable model's RSA "
        "generator is a stub and generated RSA/EC members are masked in the comparison; non-repetition of the RNG is "
        "statistical validation. Found and fixed: F8 (crash on e of wrong type), F18 (bits narrowed through int), F19 "
@@ -321,7 +335,7 @@ CLAIMS = {
        "harness, files and stdin) against the model and, independently, against the library through the harness: every "
        "subcommand, input forms (inline / file / stdin x JSON / compact stream), key arguments (right, wrong, unusable, "
        "several, sets), -a, -O, -I, -c, -o; every token produced by jws sig / jwe enc is accepted by jws ver / jwe dec; "
-       "fmt conversions preserve verifiability / plaintext; compact output of several signatures or recipients fails.",
+       "fmt conversions preserve verifiability / plaintext; compact output of several signatures or recipients fails. Also: compact tokens streamed from a file or stdin combined with -I, jwe fmt -c of general-form objects with 1/2/3 recipients (F14 found and fixed), a second signature added to tokens in every input spelling, payloads with 0xFF/NUL/dots.",
   note="Trusted: Lean kernel, standard axioms; Jose/Cli.lean models jws ver/sig/fmt, jwe dec, jwk thp/pub/eql/exc/gen/use, "
        "b64 enc/dec; jwe enc / jwe fmt are covered by the implementation-vs-library oracle only; long options, -p and "
        "`jose alg` are not exercised. Found and fixed: F10 (jws ver -a -O with unusable key exited 0), F11 (jwk thp printed "
